@@ -106,8 +106,8 @@ def rule_D1(ctx, typer, clsname, nodes_fn="__iter_nodes", edges_fn="__iter_edges
     cfg = typer.cfg_of(fe)
     inner = None
     for node in walk_own(fe.node):
-        if isinstance(node, ast.For) and isinstance(node.iter, ast.Attribute) and node.iter.attr == "children" \
-                and isinstance(node.target, ast.Name):
+        if isinstance(node, ast.For) and isinstance(node.target, ast.Name) and any(
+                isinstance(x, ast.Attribute) and x.attr == "children" for x in ast.walk(node.iter)):
             inner = node
     if inner is None:
         raise AnalysisError("anchor: loop over node.children in %s.%s not found" % (clsname, edges_fn))
@@ -543,18 +543,34 @@ def rule_D4_ids(ctx, typer, clsname):
                     ctx.viol("D4", f, st or node, "a node seen for the first time does not get next(<counter>)")
     if ids_attr is None:
         raise AnalysisError("anchor: identifier map in %s._default_nodenamefunc not found" % clsname)
-    # get-or-insert: the store happens only on a KeyError of the lookup
-    tries = [t for t in walk_own(f.node) if isinstance(t, ast.Try)]
+    # get-or-insert: the store happens only on a miss of the lookup (KeyError handler or membership test)
     n += 1
+    cfg = typer.cfg_of(f)
     ok = False
+    tries = [t for t in walk_own(f.node) if isinstance(t, ast.Try)]
     for t in tries:
-        body_loads = [s for s in ast.walk(ast.Module(body=t.body, type_ignores=[])) if isinstance(s, ast.Subscript) and isinstance(s.ctx, ast.Load)]
+        body_loads = [s_ for s_ in ast.walk(ast.Module(body=t.body, type_ignores=[])) if isinstance(s_, ast.Subscript) and isinstance(s_.ctx, ast.Load)]
         hs = [h for h in t.handlers if h.type is not None and norm(h.type) == "KeyError"]
-        stores = [s for h in hs for s in ast.walk(h) if isinstance(s, ast.Subscript) and isinstance(s.ctx, ast.Store)]
+        stores = [s_ for h in hs for s_ in ast.walk(h) if isinstance(s_, ast.Subscript) and isinstance(s_.ctx, ast.Store)]
         if body_loads and stores:
             ok = True
+    if not ok:
+        store_nodes = [cn for cn in cfg.nodes if cn.kind == "stmt" and isinstance(cn.ast, ast.Assign) and any(
+            isinstance(t_, ast.Subscript) and isinstance(t_.value, ast.Attribute) and t_.value.attr == ids_attr for t_ in cn.ast.targets)]
+        good = bool(store_nodes)
+        for cn in store_nodes:
+            key = next(norm(t_.slice) for t_ in cn.ast.targets if isinstance(t_, ast.Subscript))
+            miss = False
+            for c, o, _ in cfg.guards_of(cn):
+                if isinstance(c, ast.Compare) and len(c.ops) == 1 and norm(c.left) == key and isinstance(c.comparators[0], ast.Attribute) \
+                        and c.comparators[0].attr == ids_attr:
+                    if (isinstance(c.ops[0], ast.NotIn) and o is True) or (isinstance(c.ops[0], ast.In) and o is False):
+                        miss = True
+            if not miss:
+                good = False
+        ok = good
     if ok:
-        ctx.inst("D4", f, f.node, "get-or-insert idiom (lookup, KeyError → insert)")
+        ctx.inst("D4", f, f.node, "get-or-insert idiom (a number is assigned only when the node has none yet)")
     else:
         ctx.viol("D4", f, f.node, "identifier lookup is not get-or-insert: a node does not keep its identifier",
                  construct="%s._default_nodenamefunc: no get-or-insert" % clsname)
@@ -580,11 +596,13 @@ def rule_D4_ids(ctx, typer, clsname):
     for r in walk_own(f.node):
         if isinstance(r, ast.Return) and r.value is not None:
             n += 1
-            names = {x.id for x in ast.walk(r.value) if isinstance(x, ast.Name)} - {"hex", "str"}
-            if len(names) == 1:
+            nodeparam = f.posparams[1] if len(f.posparams) > 1 else "node"
+            uses_node = [x for x in ast.walk(r.value) if isinstance(x, ast.Attribute) and isinstance(x.value, ast.Name) and x.value.id == nodeparam]
+            direct_node = [x for x in ast.walk(r.value) if isinstance(x, ast.Name) and x.id == nodeparam]
+            if not uses_node and not direct_node:
                 ctx.inst("D4", f, r, "identifier text computed from the number alone")
             else:
-                ctx.viol("D4", f, r, "identifier text depends on %s" % sorted(names))
+                ctx.viol("D4", f, r, "identifier text depends on the node itself (%s), not only on its number" % norm((uses_node + direct_node)[0]))
     return n
 
 
@@ -748,7 +766,7 @@ def rule_D1c_complete(ctx, typer, clsname):
         cfg = typer.cfg_of(f)
         loopins = [x for x in cfg.nodes if x.kind == "loopin"]
         if kind == "edge":
-            loopins = [x for x in loopins if isinstance(x.ast.iter, ast.Attribute) and x.ast.iter.attr == "children"]
+            loopins = [x for x in loopins if any(isinstance(y, ast.Attribute) and y.attr == "children" for y in ast.walk(x.ast.iter))]
         else:
             loopins = [x for x in loopins if isinstance(x.ast.iter, ast.Call) and norm(x.ast.iter.func).endswith("PreOrderIter")]
         if not loopins:
